@@ -757,10 +757,9 @@ class Builder:
         if isinstance(value, Future):
             # Register for checking branching based on condition
             reg = self._mem_mgr.get_inactive_register(activate=True)
-            # Load values
-            address_entry = value.get_address_entry()
-            load = ICmd(instruction=GenericInstr.LOAD, operands=[reg, address_entry])
-            return [load], reg
+            # Load values (an element whose index is itself a Future needs that index
+            # loaded first; Future.get_load_commands takes care of it)
+            return value.get_load_commands(reg), reg  # type: ignore
         elif isinstance(value, RegFuture):
             assert value.reg is not None
             return [], value.reg
